@@ -185,6 +185,10 @@ def seq_contracts(chk, G, maxn):
 def expression_contracts(chk, G, maxn):
     heads = [("marker", lambda: sym(0)), ("opaque", lambda: Opq(0))]
     heads += [(h, (lambda h=h: Symbol(h))) for h in [".", "..", "..."] + list(L.SUGAR)]
+    # heads that are *not* symbols but whose text is empty or all dots (the dotted-identifier and sugar forms are for symbols only)
+    heads += [("string-empty", lambda: String("")), ("string-dots", lambda: String("..")), ("string-dot", lambda: String(".")),
+              ("bracket-string-dot", lambda: String(".", brackets="")), ("string-quote-sugar-name", lambda: String("quote")),
+              ("keyword-head", lambda: hy.models.Keyword("k")), ("integer-head", lambda: hy.models.Integer(0))]
     seconds = [("marker", lambda k: mk(k, 1)), ("None", lambda k: Symbol("None")), (".", lambda k: Symbol(".")),
                ("...", lambda k: Symbol("...")), ("@-symbol", lambda k: Symbol("@M1")), ("list", lambda k: List([mk(k, 1)])),
                ("dotted-@", lambda k: Expression([Symbol("."), Symbol("@M1"), Symbol("M7")]))]
